@@ -670,9 +670,12 @@ func (u *URI) RequestURI() []byte {
 		dst = bytesconv.AppendQuotedPath(u.requestURI[:0], u.Path())
 	}
 	// the parsed arguments stand for the query only until the query string is set anew
-	if u.parsedQueryArgs && u.queryArgs.Len() > 0 {
-		dst = append(dst, '?')
-		dst = u.queryArgs.AppendBytes(dst)
+	if u.parsedQueryArgs {
+		// (an argument list emptied by Del or Reset means: no query)
+		if u.queryArgs.Len() > 0 {
+			dst = append(dst, '?')
+			dst = u.queryArgs.AppendBytes(dst)
+		}
 	} else if len(u.queryString) > 0 {
 		dst = append(dst, '?')
 		dst = append(dst, u.queryString...)
